@@ -819,6 +819,24 @@ theorem sts_only_on_tls (cfg : Cfg) (w : Headers) :
     have : ¬ (cfg.stsMaxAge > 0) := by omega
     simp [addResponseHeaders, this]
 
+/-- The max-age the client reads is the configured one, capped at the largest 32 bit value — never a wrapped
+(negative or small) number (repair `e4a57ff`; `i32toa` formats an `int32`). -/
+theorem sts_max_age_is_configured (cfg : Cfg) (hpos : cfg.stsMaxAge > 0) :
+    wrap32 (clampMaxAge cfg.stsMaxAge) = (if cfg.stsMaxAge ≤ 2147483647 then cfg.stsMaxAge else 2147483647) ∧
+    wrap32 (clampMaxAge cfg.stsMaxAge) > 0 := by
+  unfold clampMaxAge wrap32
+  by_cases h : cfg.stsMaxAge > 2147483647
+  · have h' : ¬ cfg.stsMaxAge ≤ 2147483647 := by omega
+    simp only [h, if_true, h', if_false]
+    decide
+  · have h' : cfg.stsMaxAge ≤ 2147483647 := by omega
+    simp only [h, if_false, h', if_true]
+    have hm : cfg.stsMaxAge % 4294967296 = cfg.stsMaxAge := Int.emod_eq_of_lt (by omega) (by omega)
+    simp only [hm]
+    have : ¬ cfg.stsMaxAge ≥ 2147483648 := by omega
+    simp only [this, if_false]
+    exact ⟨trivial, hpos⟩
+
 theorem sts_absent_on_plain (cfg : Cfg) (uuid hostOpt targetHost strip : Str) (r : Req) (u : Upstream)
     (htls : r.tls = none) (hs : serve cfg uuid hostOpt targetHost strip r = some u) : u.resp = [] := by
   simp only [serve] at hs
@@ -876,6 +894,7 @@ example : localPort "[::1]".toList true = "443".toList := by decide
 example : splitHostPort "[::1]:80".toList = some ("::1".toList, "80".toList) := by decide
 example : splitHostPort "1.2.3.4".toList = none := by decide
 example : stsValue exCfg = "max-age=31536000; includeSubdomains".toList := by decide
+example : stsValue { exCfg with stsMaxAge := 3000000000 } = "max-age=2147483647; includeSubdomains".toList := by decide
 example : scheme (ofWire [("forwarded".toList, some "for=1.1.1.1;proto=https;by=2.2.2.2".toList)]) false = "https".toList := by decide
 example : canonicalKey "x-cLIENT-ip".toList = "X-Client-Ip".toList := by decide
 example : canonicalKey "bad name".toList = "bad name".toList := by decide
